@@ -81,6 +81,8 @@ def ctxKnownDirectives (s : SchemaD) (fx : Fixes) : CTX ⟨s, fx, [.knownDirecti
   enterI _ _ _ _ := trivial
   leaveI _ _ _ _ := trivial
   skipE _ _ _ _ h := by cases h
+  skipI _ _ _ _ _ := trivial
+  skip_ctx _ _ _ _ h := by rcases h with h | h <;> cases h
   noskip n st _ _ _ _ := by
     rw [enter_single]
     cases n <;> simp [enterRule]
